@@ -7,7 +7,14 @@ scalars), and column expressions evaluate element-wise.
 Names in an expression denote the TABLE's entries first: the unchanged code
 evaluates eval(expr, gblmath, table._data), i.e. a column or scalar named like a
 name of the math namespace (numpy ufuncs and `np`: sign, power, mod, exp, ...)
-is the table's entry, not the numpy object.  {"meta": "gblmath"} on stdin returns
+is the table's entry, not the numpy object.
+Sharing (unchanged tree): t.cols[...], t._copy() and row slices return tables whose
+column arrays are those of the source (views), and assignment of an existing column
+or of a cell is done in place, so such an assignment through one table is visible
+through the other; the runner does not judge that, it judges that after every
+mutation every expression asked before (of the current table, of the derived one and
+of their recent ancestors) is again the element-wise value of the columns the same
+table reports NOW.  {"meta": "gblmath"} on stdin returns
 the names of that namespace, read from xdeps.table at run time.
 
 stdin : {"cases": [{"data": [[key, kind, value]..], "col_names": [..]|null, "index": str, "ops": [op..],
@@ -17,6 +24,10 @@ stdin : {"cases": [{"data": [[key, kind, value]..], "col_names": [..]|null, "ind
         op : ["rows", sel] | ["cols", [names], "str"|"list"] | ["addself"] | ["addrows", sel] | ["mul", k]
            | ["copy"] | ["t"] | ["concat", [sel..]] | ["set", key, ["arr", kind, vals] | ["scalar", v]]
            | ["expr", text, "item"|"cols"] | ["expr", text, "cell", row] (t[text], t.cols[text], t[text, row]) | ["del", key]
+           | ["setattr", key, value] (attribute style) | ["setcell", col, row, v] (t[col, row] = v; row a position or a name)
+           | ["ond", op]   (op = set / setattr / setcell / expr applied to the table most recently derived under
+                            "stay", which stays alive next to the current table: tables derived by cols[...],
+                            _copy and row slices share their column arrays with the source)
            | ["stay", op]  (the derivation op is made from the current table and checked, the current
                             table stays current: selections and assignments interleave on one source)
         sel: ["poslist", [..]] | ["slice", lo, hi] | ["mask", [..]]
@@ -234,7 +245,81 @@ def run_case(case):
             f0.append(f"constructor dropped or changed entry {k!r}")
     fails.append(f0)
     ancestors = []
+    last_d = None           # the most recent table derived under "stay": ["ond", op] addresses it
+    live = []               # [table, expression texts asked of it]: re-asked after every mutation of any live table
+
+    def remember(tab, text):
+        for ent in live:
+            if ent[0] is tab:
+                ent[1].add(text)
+                return
+        live.append([tab, {text}])
+        del live[:-5]
+
+    def reask(label):
+        """tables derived by cols[...] / _copy / row slices share their column arrays with
+        the source and existing columns are assigned in place: after a mutation of one of
+        them, every expression asked before must still be the element-wise value of the
+        CURRENT columns of the table it is asked of"""
+        out = []
+        for tab, texts in live:
+            for tx in sorted(texts):
+                if ref_values(tab, tx) is None:
+                    continue
+                try:
+                    out += [f"{label}: {m}" for m in elementwise_failures(tab, tx, tab[tx])]
+                    if len(tab):
+                        out += [f"{label}: {m}" for m in elementwise_failures(tab, tx, tab[tx, 0], row=0)]
+                    out += [f"{label}: {m}" for m in elementwise_failures(tab, tx, tab.cols[tx][tx])]
+                except Exception as e:  # noqa
+                    out.append(f"{label}: expression {tx!r} raises {type(e).__name__} although it has an element-wise value")
+                if out:
+                    return out[:1]
+        return out
+
+    def mutate(tab, op):
+        kind = op[0]
+        if kind == "set":
+            v = op[2]
+            tab[op[1]] = v[1] if v[0] == "scalar" else mk_array(v[1], v[2])
+        elif kind == "setattr":
+            v = op[2]
+            setattr(tab, op[1], v[1] if v[0] == "scalar" else mk_array(v[1], v[2]))
+        elif kind == "setcell":
+            tab[op[1], op[2]] = op[3]
+        else:
+            raise RuntimeError("unknown mutation " + kind)
+
+    def ask(tab, op, f):
+        if op[2] == "cell":
+            got = tab[op[1], int(op[3])]
+            f += elementwise_failures(tab, op[1], got, row=int(op[3]) % max(len(tab), 1))
+        else:
+            got = tab[op[1]] if op[2] == "item" else tab.cols[op[1]][op[1]]
+            f += elementwise_failures(tab, op[1], got)
+        remember(tab, op[1])
+
     for op0 in case["ops"]:
+        if op0[0] == "ond":
+            # an operation on the last table derived under "stay" (it stays alive next to the current one)
+            op, f = op0[1], []
+            if last_d is None:
+                obs.append(["err", "NoDerivedTable"]); fails.append(f)
+                continue
+            try:
+                if op[0] == "expr":
+                    ask(last_d, op, f)
+                else:
+                    mutate(last_d, op)
+                    f += rect_failures(last_d)
+                    f += reask(f"after {op[0]} through the derived table")
+                res = ["ok", shape(last_d)]
+            except Exception as e:  # noqa
+                res = exc(e)
+                if op[0] == "expr" and ref_values(last_d, op[1]) is not None and not (op[2] == "cell" and not -len(last_d) <= int(op[3]) < len(last_d)):
+                    f.append(f"expression {op[1]!r} raises {res[1]} although it has an element-wise value")
+            obs.append(res); fails.append(f)
+            continue
         stay = op0[0] == "stay"
         op = op0[1] if stay else op0
         kind = op[0]
@@ -258,18 +343,12 @@ def run_case(case):
                 new = cur._t
             elif kind == "concat":
                 new = xd.Table.concatenate([cur.rows[mk_sel(s)] for s in op[1]])
-            elif kind == "set":
-                v = op[2]
-                cur[op[1]] = v[1] if v[0] == "scalar" else mk_array(v[1], v[2])
+            elif kind in ("set", "setattr", "setcell"):
+                mutate(cur, op)
             elif kind == "del":
                 del cur[op[1]]
             elif kind == "expr":
-                if op[2] == "cell":
-                    got = cur[op[1], int(op[3])]
-                    f += elementwise_failures(cur, op[1], got, row=int(op[3]) % max(len(cur), 1))
-                else:
-                    got = cur[op[1]] if op[2] == "item" else cur.cols[op[1]][op[1]]
-                    f += elementwise_failures(cur, op[1], got)
+                ask(cur, op, f)
             else:
                 raise RuntimeError("unknown op " + kind)
             res = ["ok", shape(new if new is not None else cur)]
@@ -284,7 +363,7 @@ def run_case(case):
                 if ref_values(cur, tx) is not None and not (kind == "expr" and op[2] == "cell" and not -len(cur) <= int(op[3]) < len(cur)):
                     f.append(f"expression {tx!r} raises {res[1]} although it has an element-wise value")
                     break
-        if kind not in ("set", "del"):
+        if kind not in ("set", "setattr", "setcell", "del"):
             after = snapshot(cur)
             if after != before:
                 diff = [k for k in before if before[k] != after[k]]
@@ -338,12 +417,14 @@ def run_case(case):
                 f.append("transposition has the wrong shape")
             if stay:
                 ancestors.append((new, len(new), list(new._col_names)))
+                last_d = new
             else:
                 ancestors.append((cur, len(cur), list(cur._col_names)))
                 cur = new
             del ancestors[:-12]
-        elif kind in ("set", "del") and res[0] == "ok":
+        elif kind in ("set", "setattr", "setcell", "del") and res[0] == "ok":
             f += rect_failures(cur)
+            f += reask(f"after {kind}")
         # tables produced earlier in the chain stay rectangular with their length
         # and column list, whatever is done to the tables derived from them
         for a, alen, acols in ancestors:
